@@ -99,3 +99,12 @@ check(
     "property-based testing (round-trip + idempotence oracle) and coverage-guided fuzzing with an in-target oracle",
     "DESIGN.md section 3 C14",
 )
+
+check(
+    "C11",
+    "exploration",
+    "A boundary-covering grid over the RFC 4791 9.9 tables (4 value types x 4 request time zones x one object per table row x every ordering of range bounds relative to the object's instants; sampled in quick, complete in thorough) plus Hypothesis-generated collections and 9.7-grammar filters, each compared with an independent reference evaluator; calendar-data compared with GET.",
+    "Trusted: the 9.9 tables and 9.7 semantics as written into xv/filterref.py from the RFC; zoneinfo/tzdata. Recurrence expansion, VALARM time-ranges and the open boundary of property time-ranges are not asserted. Known finding K1 recognised by re-evaluating the reference with the substituted semantics.",
+    "differential testing against a reference evaluator: exhaustive boundary grid + grammar-based property testing",
+    "DESIGN.md section 3 C11 and Appendix A",
+)
